@@ -108,7 +108,8 @@ class PhaseGen:
 
     def add(self, k):
         k = lang.kind_from_real(lang.kind_to_real(k))
-        self.prog.append(["stmt", k])
+        # every third statement or so is handed to the builder with its expressions as text
+        self.prog.append(["stmt", k, "text"] if self.rng.random() < 0.3 and c02.textable(k) else ["stmt", k])
 
     def mark(self, name, depth):
         if depth == 0:
@@ -144,7 +145,7 @@ class PhaseGen:
                     if bare:
                         cond = ["var", r.choice(bare)]
                 saved = set(self.avail)
-                self.prog.append(["if", cond])
+                self.prog.append(["if", cond, c02.if_form(r, cond)])
                 self.block(r.randint(1, 3), depth + 1)
                 self.prog.append(["endif"])
                 self.avail = set(saved)
@@ -209,9 +210,9 @@ def replay_named(prog, nm):
     stack = []
     for c in prog:
         if c[0] == "stmt":
-            c02.add_real(cb, c[1])
+            c02.add_call(cb, c)
         elif c[0] == "if":
-            ctx = cb.if_(lang.to_pym(c[1]))
+            ctx = c02.open_if(cb, c)
             ctx.__enter__()
             stack.append(ctx)
         elif c[0] in ("endif", "endelse"):
